@@ -423,8 +423,19 @@ impl<'a> Runtime<'a> {
                         )),
                     }],
                 };
+                #[cfg(naijascript_verif)]
+                crate::verif::emit(crate::verif::EVENTS, || {
+                    format!(
+                        "{{\"ev\":\"err\",\"kind\":{}}}",
+                        crate::verif::json_str(err.kind.as_str())
+                    )
+                });
                 self.errors.emit(err.span, Severity::Error, "runtime", err.kind.as_str(), labels);
             }
+        }
+        #[cfg(naijascript_verif)]
+        if !self.errors.has_errors() {
+            crate::verif::emit(crate::verif::EVENTS, || "{\"ev\":\"end\"}".to_string());
         }
         self.pop_scope();
     }
@@ -520,8 +531,19 @@ impl<'a> Runtime<'a> {
     fn exec_block_with_flow(&mut self, block: BlockRef<'a>) -> Result<ExecFlow<'a>, RuntimeError> {
         self.push_scope_with_capacity(0, self.frame);
         self.hoist_block_functions(block);
+        #[cfg(naijascript_verif)]
+        let mut verif_first = true;
         for stmt in block.stmts {
+            #[cfg(naijascript_verif)]
+            {
+                if !verif_first {
+                    self.verif_env();
+                }
+                verif_first = false;
+            }
             if self.stmt_is_pruned(stmt) {
+                #[cfg(naijascript_verif)]
+                self.verif_stmt("skip", stmt);
                 #[cfg(test)]
                 {
                     self.skipped_stmt_count = self
@@ -531,6 +553,8 @@ impl<'a> Runtime<'a> {
                 }
                 continue;
             }
+            #[cfg(naijascript_verif)]
+            self.verif_stmt("exec", stmt);
             match self.exec_stmt(stmt)? {
                 ExecFlow::Continue => {}
                 flow @ (ExecFlow::Return(..) | ExecFlow::Break | ExecFlow::LoopContinue) => {
@@ -538,6 +562,10 @@ impl<'a> Runtime<'a> {
                     return Ok(flow);
                 }
             }
+        }
+        #[cfg(naijascript_verif)]
+        if !verif_first {
+            self.verif_env();
         }
         self.pop_scope();
         Ok(ExecFlow::Continue)
@@ -816,9 +844,32 @@ impl<'a> Runtime<'a> {
             param_scope.push(LocalSlot { id: maybe_local, name: param, value: arg });
         }
 
+        #[cfg(naijascript_verif)]
+        crate::verif::emit(crate::verif::EVENTS, || {
+            format!(
+                "{{\"ev\":\"call\",\"f\":{},\"def\":{}}}",
+                crate::verif::json_str(func_def.name),
+                func_def.body.span.start
+            )
+        });
         // We execute the function body with proper return value handling
         let flow = self.exec_block_with_flow(func_def.body);
         self.pop_scope();
+        #[cfg(naijascript_verif)]
+        if let Ok(flow) = &flow {
+            let null = Value::Null;
+            let v = match flow {
+                ExecFlow::Return(v) => v,
+                _ => &null,
+            };
+            crate::verif::emit(crate::verif::EVENTS, || {
+                format!(
+                    "{{\"ev\":\"ret\",\"f\":{},\"v\":{}}}",
+                    crate::verif::json_str(func_def.name),
+                    crate::verif::value_json(v)
+                )
+            });
+        }
 
         let val = match flow? {
             ExecFlow::Continue => Value::Null,
@@ -853,6 +904,10 @@ impl<'a> Runtime<'a> {
         match builtin {
             GlobalBuiltin::Shout => {
                 let argv = mem::replace(&mut arg_values[0], Value::Null);
+                #[cfg(naijascript_verif)]
+                crate::verif::emit(crate::verif::EVENTS, || {
+                    format!("{{\"ev\":\"shout\",\"v\":{}}}", crate::verif::value_json(&argv))
+                });
                 GlobalBuiltin::shout(&argv);
                 let argv = if self.has_frame_arena() {
                     argv.promote(&self.pool, self.frame)
@@ -1488,6 +1543,8 @@ impl<'a> Runtime<'a> {
     }
 
     fn define_bound_local(&mut self, local: LocalId, name: &'a str, val: Value<'a>) {
+        #[cfg(naijascript_verif)]
+        self.verif_assign(local, &val);
         let has_frame = self.has_frame_arena();
         if let Some(scope) = self.env.last_mut() {
             if let Some(slot) = scope.iter_mut().rev().find(|slot| slot.id == Some(local)) {
@@ -1497,6 +1554,63 @@ impl<'a> Runtime<'a> {
                 scope.push(LocalSlot { id: Some(local), name, value });
             }
         }
+    }
+
+    #[cfg(naijascript_verif)]
+    fn verif_assign(&self, local: LocalId, val: &Value<'a>) {
+        if let Some(facts) = self.facts() {
+            let info = &facts.locals[local.0 as usize];
+            crate::verif::emit(crate::verif::EVENTS, || {
+                format!(
+                    "{{\"ev\":\"assign\",\"name\":{},\"decl\":{},\"v\":{}}}",
+                    crate::verif::json_str(info.name),
+                    info.decl_span.start,
+                    crate::verif::value_json(val)
+                )
+            });
+        }
+    }
+
+    /// Environment projection: every live variable as (declaration offset, value), bottom up.
+    #[cfg(naijascript_verif)]
+    fn verif_env(&self) {
+        if !crate::verif::on(crate::verif::ENV) {
+            return;
+        }
+        let Some(facts) = self.facts() else { return };
+        let mut vars = Vec::new();
+        for scope in &self.env {
+            for slot in scope {
+                let decl = slot.id.map_or(-1, |id| facts.locals[id.0 as usize].decl_span.start as i64);
+                vars.push(format!("[{decl},{}]", crate::verif::value_json(&slot.value)));
+            }
+        }
+        crate::verif::emit(crate::verif::ENV, || {
+            format!("{{\"ev\":\"env\",\"vars\":[{}]}}", vars.join(","))
+        });
+    }
+
+    #[cfg(naijascript_verif)]
+    fn verif_stmt(&self, what: &str, stmt: StmtRef<'a>) {
+        if !crate::verif::on(crate::verif::STMTS) {
+            return;
+        }
+        let start = match stmt {
+            Stmt::FunctionDef { span, .. }
+            | Stmt::Assign { span, .. }
+            | Stmt::AssignExisting { span, .. }
+            | Stmt::AssignIndex { span, .. }
+            | Stmt::If { span, .. }
+            | Stmt::Loop { span, .. }
+            | Stmt::Block { span, .. }
+            | Stmt::Return { span, .. }
+            | Stmt::Break { span }
+            | Stmt::Continue { span }
+            | Stmt::Expression { span, .. } => span.start,
+        };
+        crate::verif::emit(crate::verif::STMTS, || {
+            format!("{{\"ev\":\"stmt\",\"what\":\"{what}\",\"at\":{start}}}")
+        });
     }
 
     fn define_var(&mut self, name: &'a str, val: Value<'a>) {
@@ -1512,6 +1626,8 @@ impl<'a> Runtime<'a> {
     }
 
     fn assign_bound_local(&mut self, local: LocalId, val: Value<'a>) {
+        #[cfg(naijascript_verif)]
+        self.verif_assign(local, &val);
         let has_frame = self.has_frame_arena();
         let pool = &self.pool;
         let frame = self.frame;
